@@ -1,5 +1,6 @@
 SPECIFICATION Spec
 CONSTANTS
   MaxSteps = 5
-INVARIANTS FreshEqualsReused Dependencies EmitCase
+  Subs = {"emit"}
+INVARIANTS FreshEqualsReused Dependencies FedIsCurrent EmitCase
 CHECK_DEADLOCK FALSE
